@@ -541,3 +541,5 @@ _run_c06_prev7 = run
 def run(res, facts, tier):
     _run_c06_prev7(res, facts, tier)
     r7_unconditional(res, facts)
+    from . import c06_pool
+    c06_pool.run_rule(res, facts, tier)
